@@ -19,7 +19,7 @@ non-trivial = has >= 1 data block; distinct = distinct (block subset, pointer or
         "type-31 byte offsets of DESIGN.md Appendix A (hand-transcribed from ICD 2620002W Tables XVII-A..E)".into(),
         "duplicate block names and zero pointers inside data_block_count are not well-formed and are not generated".into(),
     ];
-    let total: u64 = ctx.tier.pick(24_000, 12_000_000);
+    let total: u64 = ctx.tier.pick(250_000, 12_000_000);
     ctx.floor_evaluations = 2_048;
     let seed = ctx.seed;
 
